@@ -40,7 +40,10 @@ C12Cases ==
 Rewrites == {"pfx", "ws", "pad", "cmt", "attr", "decl", "empt"}
 RECURSIVE SetSeq(_)
 SetSeq(S) == IF S = {} THEN <<>> ELSE LET x == CHOOSE y \in S : TRUE IN <<x>> \o SetSeq(S \ {x})
-C13Cases == {SetSeq(s) : s \in SUBSET Rewrites}
+(* ... and a comment in the middle of the text of a token-valued element (<session-id>47<!-- -->11</session-id>): on   *)
+(* its own and with one other rewrite, not in every composition (what it breaks is a recorded finding, and it     *)
+(* must not hide what the other compositions show)                                                               *)
+C13Cases == {SetSeq(s) : s \in SUBSET Rewrites} \cup {<<"cmtmid">>} \cup {<<"cmtmid", f>> : f \in {"pfx", "ws", "attr"}}
 
 (* C10: every text-valued parameter x every string of up to K1 character classes *)
 Params == {"persist", "persist-id", "cancel-persist-id", "log", "log-after-failed-write", "instance", "xpath", "xpath-get", "url-edit", "url-delete", "url-host",
